@@ -36,7 +36,15 @@ def run_case(cs, layout=None):
             dst = P.labels_of(r.index)
         elif op.startswith('s_'):
             s = P.build_series(cs['s'])
-            r = s.sort_index(ascending=asc) if op == 's_sort_index' else s.sort_values(ascending=asc)
+            if op == 's_sort_index' and cs.get('via_index'):
+                # the index sorted on its own (IndexHierarchy.sort / Index.sort): the same arrangement, labels and per-depth dtypes as sort_index
+                ix2 = s.index.sort(ascending=asc)
+                canon = lambda lab: json.dumps([[x[0] if x[0] != 'f' or x[2] != 1 else 'i', x[1]] + list(x[2:] if not (x[0] == 'f' and x[2] == 1) else []) for x in (lab[1] if lab[0] == 't' else [lab])])
+                where = {canon(l): i for i, l in enumerate(cs['s']['index'])}
+                order0 = [where.get(canon(l), 0) for l in P.labels_of(ix2)]
+                r = sf.Series(s.values[order0] if len(order0) else s.values, index=ix2, name=s.name)
+            else:
+                r = s.sort_index(ascending=asc) if op == 's_sort_index' else s.sort_values(ascending=asc)
             src, dst = cs['s']['index'], P.labels_of(r.index)
         else:
             f = P.build_frame(cs['f'], layout)
@@ -88,6 +96,23 @@ def gen_case(rng, big=True):
         col = _keyvals(rng, n, rng.choice('ifUb'), rng.choice([2, 3, 5]))
         s = {'index': [['i', i] for i in range(n)], 'vals': col['vals'], 'dt': col['dt'], 'name': ['s', 'nm']}
         return {'op': 's_sort_values', 's': s, 'ascending': asc}, None
+    if r < 0.26 and n:
+        # a hierarchical index whose depths are numeric with different dtypes (int64 above float64, or float64 above int64), sorted on its own
+        n2 = min(n, 12)
+        outer = [rng.randrange(4) for _ in range(n2)]
+        firsts = []
+        for o in outer:
+            if o not in firsts:
+                firsts.append(o)
+        flip = rng.random() < 0.5
+        rows = []
+        for o in firsts:
+            k = outer.count(o)
+            for x in rng.sample(range(1, 40, 2), k):
+                rows.append(['t', [['i', o], ['f', x, 2]]] if not flip else ['t', [['f', 2 * o + 1, 2], ['i', x]]])
+        col = _keyvals(rng, len(rows), 'i', 5)
+        s = {'index': rows, 'vals': col['vals'], 'dt': col['dt'], 'name': ['none']}
+        return {'op': 's_sort_index', 's': s, 'ascending': asc, 'via_index': True}, None
     if r < 0.3:
         labels = [['i', x] for x in rng.sample(range(3 * n + 1), n)]
         col = _keyvals(rng, n, 'i', 5)
